@@ -335,6 +335,13 @@ def run(run: Run) -> None:
     us.append(("best", 4, [surplus4, A.scaled(surplus4, 2.0)], SA[1], "l1_norm", 4 if quick else 5, 2, sched_small[:2], "surplus4"))
     surplus3 = tuple(float(A.popcount(s)) + (1.0 if s == 7 else 0.0) for s in range(8))
     us.append(("best", 3, [surplus3, tuple([0.0] * 8)], SA[0], "linf_norm", 3, 2, sched_small[:3], "surplus3+zero"))
+    # tiny units (every gap below 1e-8) and a near-tie (one coalition worth 2^-20 more in a symmetric game)
+    us.append(("best", 3, [A.scaled(picks3[0], A.TINY), A.scaled(picks3[1], A.TINY)], SA[1], "l1_norm", 3, 2, sched_small[:2], "tiny3"))
+    sym4 = [float(A.popcount(s) ** 2) for s in range(16)]
+    sym4[13] += 2.0 ** -20
+    us.append(("best", 4, [tuple(sym4)], SA[1], "l1_norm", 3, 1, sched_small[:2], "near-tie4"))
+    us.append(("best", 4, [A.scaled(picks4[0], 2.0 ** -40), A.scaled(picks4[1], 2.0 ** -40)], SA[0], "l1_norm", 2, 2, sched_small[:2], "tiny4"))
+    us.append(("best", 4, [A.scaled(picks4[2 % len(picks4)], 2.0 ** -40)], SA[1], "exploitability", 2, 1, sched_small[:1], "tiny4e"))
     if not quick:
         us.append(("best", 4, picks4[:3], SA[0], "exploitability", 3, 3, sched_small[:3], "exact4-r3"))
     run.rule = ("get_exploitabilities_of_action_sequences for every starting knowledge (n=3: all 8; n=4: minimal, minimal+one coalition, minimal+all pairs) x "
